@@ -18,7 +18,7 @@ FEATURES = [
     "kern_block", "fractional", "quadratic", "cubic", "ttx_data", "vertical",
     "prodnames_off", "meta", "instructions_off", "dottedcircle", "ds_skipexport",
     "openinfo", "background_layer", "glyph_lib", "empty_glyph", "underline_pos", "ds5_vfs",
-    "multi_anchor",
+    "multi_anchor", "tt_instructions",
 ]
 
 # name, unicodes, kind
@@ -310,6 +310,39 @@ def gen_family(rng, force=(), forbid=(), n_masters=None, max_glyphs=14, p_sparse
                 c0 = extra[0]
                 g["anchors"].append([c0 + "_1", _q(rng, (g["width"] or 300) * 0.3, spec["frac"]), 620])
                 g["anchors"].append([c0 + "_2", _q(rng, (g["width"] or 300) * 0.7, spec["frac"]), 620])
+    if "tt_instructions" in on:
+        lib_tt = {"formatVersion": "1", "controlValue": {"0": 0, "2": 500, "5": -12},
+                  "controlValueProgram": "PUSHB[ ] 0\nFDEF[ ]\nENDF[ ]" if rng.random() < 0.3 else "PUSHW[ ] 511\nSCANCTRL[ ]",
+                  "fontProgram": "PUSHB[ ] 0\nFDEF[ ]\nPOP[ ]\nENDF[ ]",
+                  "maxStorage": 4, "maxFunctionDefs": 2, "maxStackElements": 16, "maxZones": 2}
+        if rng.random() < 0.3:
+            del lib_tt["controlValue"]
+        tt_lib = lib_tt
+        for n, _, r in roster:
+            g = glyphs[n]
+            if r == "base" and rng.random() < 0.4:
+                # (a stale hash: ufo2ft then drops the program with a warning)
+                g["lib"]["public.truetype.instructions"] = {"formatVersion": "1", "id": "stale-hash",
+                                                            "assembly": "PUSHB[ ] 0\nMDAP[1]"}
+            if g["components"]:
+                if rng.random() < 0.5:
+                    g["lib"]["public.truetype.overlap"] = rng.random() < 0.5
+                if rng.random() < 0.6:
+                    ol = {}
+                    for k, comp in enumerate(g["components"]):
+                        if len(comp) == 2:
+                            # identifiers as editors write them: unique across the font
+                            comp.append("id-%s-%d" % (n.replace(".", "_"), k))
+                        if rng.random() < 0.7:
+                            ol[comp[2]] = {}
+                            if rng.random() < 0.6:
+                                ol[comp[2]]["public.truetype.useMyMetrics"] = rng.random() < 0.6
+                            if rng.random() < 0.5:
+                                ol[comp[2]]["public.truetype.roundOffsetToGrid"] = rng.random() < 0.5
+                    if ol:
+                        g["lib"]["public.objectLibs"] = ol
+    else:
+        tt_lib = None
     if "vertical" in on:
         for g in glyphs.values():
             g["height"] = rng.choice([upm, upm + 100])
@@ -397,6 +430,8 @@ def gen_family(rng, force=(), forbid=(), n_masters=None, max_glyphs=14, p_sparse
 
     # ------------------------------------------------------------- lib
     lib = {}
+    if tt_lib is not None:
+        lib["public.truetype.instructions"] = tt_lib
     if "glyphorder" in on:
         go = list(names)
         rng.shuffle(go)
@@ -505,6 +540,13 @@ def gen_family(rng, force=(), forbid=(), n_masters=None, max_glyphs=14, p_sparse
                 "vVariants": [base_names[0], base_names[1]],
                 "vAssembly": [[base_names[1], 0, 0, 100], [base_names[0], 1, 100, 100]],
             }
+            if rng.random() < 0.5:
+                g0["lib"]["com.nagwa.MATHPlugin.variants"].update({
+                    "hVariants": [base_names[1], base_names[0]],
+                    "hAssembly": [[base_names[0], 0, 0, 50], [base_names[1], 1, 50, 0]]})
+            if rng.random() < 0.4:
+                g0["anchors"].append(["math.ta", g0["width"] / 2, 700])
+                g0["anchors"].append(["math.bl0", 10, 0])
     if "skipexport" in on:
         protected = set(referenced_in_fea)
         for seq in lib.get("public.unicodeVariationSequences", {}).values():
@@ -710,13 +752,14 @@ def _perturb_glyph(rng, g, k, spec, keep_components=False):
                 nx, ny = int(round(nx)), int(round(ny))
             nc.append([nx, ny, t, s])
         out["contours"].append(nc)
-    for base, tr in g["components"]:
+    for comp in g["components"]:
+        base, tr = comp[0], comp[1]
         ntr = list(tr)
         ntr[4] = tr[4] + rng.choice([0, 10, 30]) * k
         ntr[5] = tr[5] + rng.choice([0, 0, 15]) * k
         if not frac:
             ntr[4], ntr[5] = int(round(ntr[4])), int(round(ntr[5]))
-        out["components"].append([base, ntr])
+        out["components"].append([base, ntr] + list(comp[2:]))
     for name, x, y in g["anchors"]:
         nx, ny = x + rng.choice([0, 10, -5]) * k, y + rng.choice([0, 20]) * k
         if not frac:
